@@ -19,6 +19,19 @@ def dep_expr(d):
     return 'declare_dependency()' if v == 'undefined' else "declare_dependency(version: '%s')" % v
 
 
+def ob3(v):
+    return 'N' if v is None else ('T' if v else 'F')
+
+
+def ov3(sd):
+    """overrides of a subproject as (name, dep, static) triples (static omitted = None)"""
+    return [(o[0], o[1], o[2] if len(o) > 2 else None) for o in sd['overrides']]
+
+
+def static_kw(sk):
+    return '' if sk is None else ', static: %s' % ('true' if sk else 'false')
+
+
 def lookup_src(i, lk):
     kw = []
     if lk['required'] is not None:
@@ -29,6 +42,10 @@ def lookup_src(i, lk):
         kw.append('allow_fallback: %s' % ('true' if lk['allow'] else 'false'))
     if lk['fallback'] is not None:
         kw.append('fallback: [%s]' % ', '.join("'%s'" % v for v in lk['fallback']))
+    if lk.get('static') is not None:
+        kw.append('static: %s' % ('true' if lk['static'] else 'false'))
+    if lk.get('deflib') is not None:
+        kw.append("default_options: ['default_library=%s']" % lk['deflib'])
     args = ', '.join(["'%s'" % n for n in lk['names']] + kw)
     return ("d = dependency(%s)\nmessage('R%d:@0@:@1@:@2@:@3@'.format(d.found(), d.type_name(), d.version(), d.name()))\n"
             % (args, i))
@@ -55,8 +72,8 @@ def write_project(cell, root):
         d = os.path.join(src, 'subprojects', name)
         os.makedirs(d)
         body = ["project('%s')" % name]
-        for n, dd in sd['overrides']:
-            body.append("meson.override_dependency('%s', %s)" % (n, dep_expr(dd)))
+        for n, dd, sk in ov3(sd):
+            body.append("meson.override_dependency('%s', %s%s)" % (n, dep_expr(dd), static_kw(sk)))
         for n, dd in sd['vars']:
             body.append('%s = %s' % (n, dep_expr(dd)))
         if sd['fails']:
@@ -66,9 +83,11 @@ def write_project(cell, root):
     li = 0
     for op in cell['ops']:
         if op[0] == 'O':
-            body.append("meson.override_dependency('%s', %s)" % (op[1], dep_expr(op[2])))
+            body.append("meson.override_dependency('%s', %s%s)" % (op[1], dep_expr(op[2]), static_kw(op[3] if len(op) > 3 else None)))
         elif op[0] == 'P':
-            body.append("subproject('%s', required: %s)" % (op[1], 'true' if op[2] else 'false'))
+            dlo = op[3] if len(op) > 3 else None
+            body.append("subproject('%s', required: %s%s)" % (op[1], 'true' if op[2] else 'false',
+                                                              '' if dlo is None else ", default_options: ['default_library=%s']" % dlo))
         else:
             body.append(lookup_src(li, op[1]))
             li += 1
@@ -87,6 +106,10 @@ def run_cell(arg):
             '-Dwrap_mode=' + cell['wrap_mode']]
     if cell['fff']:
         args.append('-Dforce_fallback_for=' + ','.join(cell['fff']))
+    if cell.get('deflib', 'shared') != 'shared':
+        args.append('-Ddefault_library=' + cell['deflib'])
+    for sn, dl in cell.get('subdl', []):
+        args.append('-D%s:default_library=%s' % (sn, dl))
     args += [src, os.path.join(root, 'b')]
     env = {'PKG_CONFIG_LIBDIR': pc, 'PKG_CONFIG_PATH': '', 'PKG_CONFIG': '/usr/bin/pkg-config'}
     rc, out = 'timeout', ''
@@ -111,7 +134,8 @@ def render_obs(obs, status):
 
 
 def cell_to_model(cell):
-    args = [cell['wrap_mode'], S2.join(cell['fff'])]
+    args = [cell['wrap_mode'], S2.join(cell['fff']), cell.get('deflib', 'shared'),
+            S2.join(sn + S3 + dl for sn, dl in cell.get('subdl', []))]
     for n, v in cell['sys']:
         args.append(S1.join(['S', n, v]))
     wrapped = set()
@@ -123,28 +147,70 @@ def cell_to_model(cell):
             args.append(S1.join(['W', name]))
     for name, sd in cell['subs']:
         args.append(S1.join(['D', name, 'T' if sd['fails'] else 'F',
-                             S2.join(n + S3 + d for n, d in sd['overrides']),
+                             S2.join(n + S3 + ob3(sk) + d for n, d, sk in ov3(sd)),
                              S2.join(n + S3 + d for n, d in sd['vars'])]))
     for op in cell['ops']:
         if op[0] == 'O':
-            args.append(S1.join(['O', op[1], op[2]]))
+            args.append(S1.join(['O', op[1], ob3(op[3] if len(op) > 3 else None), op[2]]))
         elif op[0] == 'P':
-            args.append(S1.join(['P', op[1], 'T' if op[2] else 'F']))
+            args.append(S1.join(['P', op[1], 'T' if op[2] else 'F', (op[3] if len(op) > 3 else None) or '-']))
         else:
             lk = op[1]
             req = True if lk['required'] is None else lk['required']
             args.append(S1.join(['L', S2.join(n if n else S4 for n in lk['names']), 'T' if req else 'F',
                                  S2.join(lk['version']), 'N' if lk['allow'] is None else ('T' if lk['allow'] else 'F'),
-                                 '-' if lk['fallback'] is None else '=' + S2.join(lk['fallback'])]))
+                                 '-' if lk['fallback'] is None else '=' + S2.join(lk['fallback']),
+                                 ob3(lk.get('static')), lk.get('deflib') or '-']))
     return ('prog', args)
 
 
 # ---- the documented policy, written out for one dependency() call on one name (oracle; no model)
+def py_register(over, n, sk, dl, d):
+    """meson.override_dependency(n, d, static: sk) in a project whose default_library is dl (reference manual:
+    without `static` the override answers lookups without `static` and those matching default_library).
+    over: {(name, static): dep}.  False = the call is an error."""
+    if n == '':
+        return False
+
+    def put(key, permissive=False):
+        if key in over:
+            return permissive
+        over[key] = d
+        return True
+    if sk is None:
+        if not put((n, None)):
+            return False
+        if dl == 'static':
+            return put((n, True))
+        if dl == 'shared':
+            return put((n, False))
+        return put((n, True)) and put((n, False))
+    return put((n, None), True) and put((n, sk))
+
+
+def py_eff_dl(cell, sub, sk, calldl):
+    if sk is not None:
+        return 'static' if sk else 'shared'
+    return dict(cell.get('subdl', [])).get(sub) or calldl or cell.get('deflib', 'shared')
+
+
+def py_configure(cell, over, sub, sd, dl):
+    """overrides after configuring subproject `sub`, or None if it fails"""
+    if sd is None or sd['fails']:
+        return None
+    new = dict(over)
+    for n, d, sk in ov3(sd):
+        if not py_register(new, n, sk, dl, d):
+            return None
+    return new
+
+
 def policy_expect(c):
     """c: circumstances of the first dependency() call of a cell.  Returns 'ERR' | 'F' | 'T:<type>:<version>'."""
     from_vok = c['vok']
     req = c['required']
     fail = 'ERR' if req else 'F'
+    key = (c['name'], c['static'])
 
     def vet(d):
         if d is None or d in ('N', 'X'):
@@ -152,8 +218,8 @@ def policy_expect(c):
         return 'T:internal:' + d[1:] if from_vok(d[1:]) else fail
     if c['fallback'] is not None and (c['allow'] is not None or len(c['fallback']) > 2):
         return 'ERR'
-    if c['override'] is not None:                       # an overridden dependency wins
-        return vet(c['override'])
+    if key in c['over']:                                # an overridden dependency wins
+        return vet(c['over'][key])
     allow, fb = c['allow'], None
     if c['fallback'] is not None:
         if len(c['fallback']) == 0:
@@ -167,33 +233,29 @@ def policy_expect(c):
         if forced or allow is True or req or c['sub_state'].get(s) == 'found':
             fb = (s, v)
 
-    def sub_dep(s, var):
+    def var_dep(s, var):
         sd = c['subdefs'].get(s)
-        for n, d in sd['overrides']:
-            if n == c['name']:
-                return d
         var = var or c['wrapvars'].get((s, c['name']))
-        if not var:
+        if not var or sd is None:
             return 'N'
         for n, d in sd['vars']:
             if n == var:
                 return d
         return 'N'
     if fb is not None and c['sub_state'].get(fb[0]) == 'found':      # fallback subproject already configured
-        return vet(sub_dep(*fb))
+        return vet(var_dep(*fb))
     if not (forced and fb is not None):                              # the system, unless fallback is forced
         if c['sys'] is not None and c['sys_ok'](c['sys']):
             return 'T:pkgconfig:' + c['sys']
     if fb is not None and (forced or c['wrap_mode'] != 'nofallback'):
         if c['sub_state'].get(fb[0]) == 'disabled':
             return fail
-        sd = c['subdefs'].get(fb[0])
-        if sd is None or sd['fails']:
-            return fail
-        names = [n for n, _ in sd['overrides']]
-        if len(set(names)) != len(names) or any(n in c['overridden_names'] or n == '' for n in names):
+        new = py_configure(c['cell'], c['over'], fb[0], c['subdefs'].get(fb[0]), py_eff_dl(c['cell'], fb[0], c['static'], c['deflib']))
+        if new is None:
             return fail                                               # the subproject itself fails
-        return vet(sub_dep(*fb))
+        if key in new:
+            return vet(new[key])
+        return vet(var_dep(*fb))
     return fail
 
 
@@ -203,26 +265,22 @@ def first_lookup_circ(cell):
     subdefs = dict(cell['subs'])
     for op in cell['ops']:
         if op[0] == 'O':
-            if op[1] in over or op[1] == '':
+            if not py_register(over, op[1], op[3] if len(op) > 3 else None, cell.get('deflib', 'shared'), op[2]):
                 return None
-            over[op[1]] = op[2]
         elif op[0] == 'P':
             s = op[1]
             if s in substate:
                 if op[2] and substate[s] != 'found':
                     return None
                 continue
-            sd = subdefs.get(s)
-            names = [n for n, _ in sd['overrides']] if sd else []
-            bad = sd is None or sd['fails'] or len(set(names)) != len(names) or any(n in over or n == '' for n in names)
-            if bad:
+            new = py_configure(cell, over, s, subdefs.get(s), py_eff_dl(cell, s, None, op[3] if len(op) > 3 else None))
+            if new is None:
                 if op[2]:
                     return None
                 substate[s] = 'disabled'
             else:
                 substate[s] = 'found'
-                for n, d in sd['overrides']:
-                    over[n] = d
+                over = new
         else:
             lk = op[1]
             names = [n for n in lk['names'] if n]
@@ -241,8 +299,8 @@ def first_lookup_circ(cell):
                 if provide is None and name.lower() in d:
                     provide = (wn, d[name.lower()])
             return {'name': name, 'required': True if lk['required'] is None else lk['required'], 'wanted': lk['version'],
-                    'allow': lk['allow'], 'fallback': lk['fallback'], 'override': over.get(name),
-                    'overridden_names': set(over), 'sys': dict(cell['sys']).get(name), 'provide': provide,
+                    'allow': lk['allow'], 'fallback': lk['fallback'], 'over': over, 'static': lk.get('static'),
+                    'deflib': lk.get('deflib'), 'cell': cell, 'sys': dict(cell['sys']).get(name), 'provide': provide,
                     'wrapvars': wrapvars, 'sub_state': substate, 'subdefs': subdefs,
                     'wrap_mode': cell['wrap_mode'], 'fff': cell['fff']}
     return None
@@ -262,7 +320,8 @@ def annotate(cell, vcmp):
             continue
         seen_lookup = True
         lk = op[1]
-        out.append({'args': {k: lk[k] for k in ('names', 'required', 'version', 'allow', 'fallback')},
+        out.append({'args': dict({k: lk[k] for k in ('names', 'required', 'version', 'allow', 'fallback')},
+                                 static=lk.get('static'), deflib=lk.get('deflib')),
                     'required': True if lk['required'] is None else lk['required'], 'version': lk['version'],
                     'expect': None, 'state_changed_since_first': changed})
     # "once one of the names has been found, all other names ... return the same value": a later lookup of a subset
@@ -273,7 +332,8 @@ def annotate(cell, vcmp):
             nj = [n for n in out[j]['args']['names'] if n]
             for i in range(j):
                 ni = [n for n in out[i]['args']['names'] if n]
-                if nj and set(nj) <= set(ni) and len(set(ni)) == len(ni) and out[i]['version'] == out[j]['version']:
+                if nj and set(nj) <= set(ni) and len(set(ni)) == len(ni) and out[i]['version'] == out[j]['version'] \
+                        and out[i]['args']['static'] == out[j]['args']['static']:
                     out[j]['alias_of'] = i
                     break
     if c is not None and out:
@@ -281,9 +341,18 @@ def annotate(cell, vcmp):
         c['vok'] = lambda v: (not w) or (v != 'undefined' and vcmp(v, w))
         c['sys_ok'] = lambda v: (not w) or (v != '' and vcmp(v, w))
         out[0]['expect'] = policy_expect(c)
-        out[0]['why'] = 'documented policy for ' + json.dumps({k: (sorted(v) if isinstance(v, set) else v) for k, v in c.items()
-                                                                if k in ('override', 'sys', 'provide', 'sub_state', 'wrap_mode', 'fff')},
-                                                               default=str)
+        out[0]['why'] = 'documented policy for ' + json.dumps({k: v for k, v in c.items()
+                                                                if k in ('static', 'deflib', 'sys', 'provide', 'sub_state', 'wrap_mode', 'fff')},
+                                                               default=str) + ' overrides ' + repr(sorted(c['over'], key=repr))
+        # the fallback subproject registers exactly this name with meson.override_dependency(name, d): the call that
+        # configures it must get d, whatever static:/default_library say (Props/C10.v C10_fallback_override_found)
+        lk0 = [op[1] for op in cell['ops'] if op[0] == 'L'][0]
+        for sn, sd in cell['subs']:
+            o3 = ov3(sd)
+            if (out[0]['expect'] or '').startswith('T:internal:') and not sd['fails'] and len(o3) == 1 \
+                    and o3[0][0] == c['name'] and o3[0][2] is None and o3[0][1] == 'I' + out[0]['expect'][11:] \
+                    and c['sub_state'].get(sn) is None and not c['over']:
+                out[0]['override_fallback'] = sn
     return out
 
 
@@ -317,10 +386,18 @@ def sub_providing(kind, ver='2.0', name='foo'):
 FBKINDS = ['none', 'explicit2', 'explicit1', 'provide', 'providevar', 'configured', 'override']
 
 
-def product_cell(sysv, cons, fbkind, wm, fff, required, allow, subkind='both', subver='2.0', nlook=1, rng=None):
-    """One cell of the property's cross product."""
-    cell = {'wrap_mode': wm, 'fff': list(fff), 'sys': [('foo', sysv)] if sysv else [], 'wraps': [], 'subs': [], 'ops': []}
+DLIBS = ['shared', 'static', 'both']
+STATIC_DIMS = [[None, True, False], [None, 'static', 'shared', 'both'], DLIBS, [None, 'static', 'shared']]
+
+
+def product_cell(sysv, cons, fbkind, wm, fff, required, allow, subkind='both', subver='2.0', nlook=1, rng=None,
+                 static=None, lkdl=None, gdl='shared', sdl=None):
+    """One cell of the property's cross product.  static: the `static:` keyword of the lookup; lkdl: default_library
+    in its default_options; gdl: -Ddefault_library; sdl: -Dsub:default_library."""
+    cell = {'wrap_mode': wm, 'fff': list(fff), 'sys': [('foo', sysv)] if sysv else [], 'wraps': [], 'subs': [], 'ops': [],
+            'deflib': gdl, 'subdl': []}
     lk = base_lookup(required=required, version=cons, allow=allow)
+    lk['static'], lk['deflib'] = static, lkdl
     if fbkind in ('explicit2', 'explicit1', 'configured'):
         if fbkind == 'explicit1':
             lk['fallback'] = ['sub']
@@ -341,6 +418,8 @@ def product_cell(sysv, cons, fbkind, wm, fff, required, allow, subkind='both', s
         cell['ops'].append(('O', 'foo', 'I' + subver))
         cell['wraps'].append({'name': 'sub', 'file': True, 'entries': [('foo', None)]})
         cell['subs'].append(('sub', sub_providing('none')))
+    if sdl is not None and any(n == 'sub' for n, _ in cell['subs']):
+        cell['subdl'] = [('sub', sdl)]
     for _ in range(nlook):
         cell['ops'].append(('L', dict(lk)))
     return cell
@@ -406,6 +485,38 @@ def corner_cells():
         ('L', {'names': ['foo', 'bar'], 'required': True, 'version': ['>=1'], 'allow': None, 'fallback': None}),
         ('L', base_lookup('foo', version=['>=1'])), ('L', base_lookup('bar', version=['>=1']))]}
     cs.append(c)
+    # identifiers are (name, static): the fallback subproject is configured with the default_library that `static:`
+    # forces, so its meson.override_dependency(name) answers the lookup that triggered it
+    for fbk in ('provide', 'explicit1'):
+        for stc, gdl in ((True, 'shared'), (False, 'static'), (True, 'both'), (None, 'static')):
+            for req in (True, False):
+                cs.append(P(None, [], fbk, 'default', [], req, True if (fbk == 'provide' and not req) else None,
+                            subkind='override', static=stc, gdl=gdl, nlook=2))
+    cs.append(P(None, [], 'provide', 'default', [], True, None, subkind='override', lkdl='static', nlook=1))
+    c = P(None, [], 'provide', 'default', [], True, None, subkind='override', lkdl='static')
+    c['ops'].append(('L', dict(base_lookup('foo', required=False), static=True, deflib=None)))    # answered by the static subproject
+    c['ops'].append(('L', dict(base_lookup('foo', required=False), static=True, deflib=None)))
+    c['ops'].append(('L', dict(base_lookup('foo', required=False), static=False, deflib=None)))   # no shared override was registered
+    cs.append(c)
+    cs.append(P(None, [], 'explicit1', 'default', [], True, None, subkind='override', static=True, sdl='shared'))   # static: beats -Dsub:default_library
+    cs.append(P(None, [], 'explicit1', 'default', [], True, None, subkind='override', lkdl='static', sdl='shared', nlook=2))
+    cs.append(P('1.0', [], 'explicit1', 'forcefallback', [], True, None, subkind='override', static=False, gdl='both'))
+    # meson.override_dependency(..., static: ...) in the main project and in a subproject
+    c = {'wrap_mode': 'default', 'fff': [], 'deflib': 'shared', 'subdl': [], 'sys': [], 'wraps': [], 'subs': [], 'ops': [
+        ('O', 'foo', 'I1.0', True), ('L', dict(base_lookup('foo', required=False), static=True)),
+        ('L', dict(base_lookup('foo', required=False))), ('L', dict(base_lookup('foo', required=False), static=False)),
+        ('O', 'foo', 'I2.0', False), ('L', dict(base_lookup('foo', required=False), static=False)), ('O', 'foo', 'I3.0')]}
+    cs.append(c)
+    sd = sub_providing('none')
+    sd['overrides'] = [('foo', 'I1.0', True), ('foo', 'I2.0', False)]
+    c = {'wrap_mode': 'default', 'fff': [], 'deflib': 'static', 'subdl': [], 'sys': [], 'wraps': [], 'subs': [('sub', sd)], 'ops': [
+        ('L', dict(base_lookup('foo', fallback=['sub']), static=False)), ('L', dict(base_lookup('foo', required=False))),
+        ('L', dict(base_lookup('foo', required=False), static=True))]}
+    cs.append(c)
+    c = {'wrap_mode': 'default', 'fff': [], 'deflib': 'shared', 'subdl': [], 'sys': [], 'wraps': [], 'subs': [('sub', sub_providing('override'))],
+         'ops': [('P', 'sub', True, 'static'), ('L', dict(base_lookup('foo', required=False, fallback=['sub']), static=True)),
+                 ('L', dict(base_lookup('foo', required=False, fallback=['sub']), static=False))]}
+    cs.append(c)
     # duplicate / malformed names
     c = {'wrap_mode': 'default', 'fff': [], 'sys': [('foo', '1.0')], 'wraps': [], 'subs': [], 'ops': [
         ('L', {'names': ['foo', 'foo'], 'required': False, 'version': [], 'allow': None, 'fallback': None})]}
@@ -452,10 +563,13 @@ def random_cell(rng):
                             rng.choice(FBKINDS), rng.choice(WRAP_MODES), rng.choice([[], [], ['foo'], ['sub'], ['other']]),
                             rng.random() < 0.5, rng.choice([None, None, True, False]),
                             subkind=rng.choice(['both', 'override', 'var', 'none', 'fails', 'notfound', 'other']),
-                            subver=rng.choice(VERS + ['undefined', '1.5']), nlook=rng.choice([1, 1, 2, 3]))
+                            subver=rng.choice(VERS + ['undefined', '1.5']), nlook=rng.choice([1, 1, 2, 3]),
+                            static=rng.choice([None, None, True, False]), lkdl=rng.choice([None, None] + DLIBS),
+                            gdl=rng.choice(DLIBS + ['shared']), sdl=rng.choice([None, None, 'static', 'shared']))
     # free-form build file over two names and two subprojects; names with case, dots, dashes, plus signs
     names = rng.choice([['foo', 'bar'], ['foo', 'bar'], ['Foo', 'bar'], ['foo-2.0', 'lib_x.y'], ['gtk+-3.0', 'foo'], ['a', 'B']])
-    cell = {'wrap_mode': rng.choice(WRAP_MODES), 'fff': rng.choice([[], [], ['foo'], ['sub'], ['bar', 'sub2']]),
+    cell = {'deflib': rng.choice(DLIBS + ['shared', 'shared']), 'subdl': [],
+            'wrap_mode': rng.choice(WRAP_MODES), 'fff': rng.choice([[], [], ['foo'], ['sub'], ['bar', 'sub2']]),
             'sys': [(n, rng.choice(VERS)) for n in names if rng.random() < 0.4], 'wraps': [], 'subs': [], 'ops': []}
     provided = set()
     for s in ('sub', 'sub2'):
@@ -465,7 +579,11 @@ def random_cell(rng):
             if rng.random() < 0.3:
                 other = [n for n in names if n != nm][0]
                 sd['overrides'].append((other, rng.choice(['I0.5', 'N'])))
+            if sd['overrides'] and rng.random() < 0.25:
+                sd['overrides'] = [(o[0], o[1], rng.choice([True, False])) for o in sd['overrides']]
             cell['subs'].append((s, sd))
+            if rng.random() < 0.2:
+                cell['subdl'].append((s, rng.choice(DLIBS)))
             if rng.random() < 0.6:
                 ents = []
                 for n in names:
@@ -478,9 +596,9 @@ def random_cell(rng):
     for _ in range(nops):
         k = rng.random()
         if k < 0.12:
-            cell['ops'].append(('O', rng.choice(names), rng.choice(['I1.0', 'I2.5', 'N'])))
+            cell['ops'].append(('O', rng.choice(names), rng.choice(['I1.0', 'I2.5', 'N']), rng.choice([None, None, True, False])))
         elif k < 0.27:
-            cell['ops'].append(('P', rng.choice(['sub', 'sub2']), rng.random() < 0.2))
+            cell['ops'].append(('P', rng.choice(['sub', 'sub2']), rng.random() < 0.2, rng.choice([None, None, None] + DLIBS)))
         else:
             nm = rng.sample(names, rng.choice([1, 1, 1, 2]))
             if rng.random() < 0.06:
@@ -492,7 +610,8 @@ def random_cell(rng):
                 if rng.random() < 0.9:
                     al = None
             lk = {'names': nm, 'required': rng.random() < 0.35, 'version': rng.choice(CONSTRAINTS + [['>=1.0', '<2.2']]),
-                  'allow': al, 'fallback': fb}
+                  'allow': al, 'fallback': fb, 'static': rng.choice([None, None, None, True, False]),
+                  'deflib': rng.choice([None, None, None, None] + DLIBS)}
             cell['ops'].append(('L', lk))
             if rng.random() < 0.35:
                 cell['ops'].append(('L', dict(lk)))
@@ -505,31 +624,45 @@ PRODUCT_DIMS = [[None] + VERS, CONSTRAINTS, FBKINDS, ['default', 'nofallback', '
                 [[], ['foo'], ['sub']], [True, False], [None, True, False]]
 
 
-def full_product():
-    return [product_cell(*t) for t in itertools.product(*PRODUCT_DIMS)]
+def full_product(rng):
+    """the full decision table; static:/default_library settings vary from cell to cell (a third of the cells have none)"""
+    out = []
+    for t in itertools.product(*PRODUCT_DIMS):
+        if rng.random() < 0.33:
+            out.append(product_cell(*t))
+        else:
+            st = [rng.choice(d) for d in STATIC_DIMS]
+            out.append(product_cell(*t, static=st[0], lkdl=st[1], gdl=st[2], sdl=st[3]))
+    return out
 
 
 def pairwise_sample(rng, n):
     """A sample of the cross product in which every pair of values of two different dimensions occurs
     (greedy covering array), filled up with random cells to n."""
-    tuples = list(itertools.product(*[range(len(d)) for d in PRODUCT_DIMS]))
+    dims = PRODUCT_DIMS + STATIC_DIMS
     need = set()
-    k = len(PRODUCT_DIMS)
+    k = len(dims)
     for a in range(k):
         for b in range(a + 1, k):
-            for x in range(len(PRODUCT_DIMS[a])):
-                for y in range(len(PRODUCT_DIMS[b])):
+            for x in range(len(dims[a])):
+                for y in range(len(dims[b])):
                     need.add((a, x, b, y))
+    draw = lambda: tuple(rng.randrange(len(d)) for d in dims)
     pairs_of = lambda t: {(a, t[a], b, t[b]) for a in range(k) for b in range(a + 1, k)}
     chosen = []
     while need and len(chosen) < n:
-        pool = rng.sample(tuples, 120)
+        pool = [draw() for _ in range(150)]
         best = max(pool, key=lambda t: len(pairs_of(t) & need))
         chosen.append(best)
         need -= pairs_of(best)
     while len(chosen) < n:
-        chosen.append(rng.choice(tuples))
-    return [product_cell(*[PRODUCT_DIMS[i][j] for i, j in enumerate(t)]) for t in chosen], len(need)
+        chosen.append(draw())
+    np = len(PRODUCT_DIMS)
+    out = []
+    for t in chosen:
+        v = [dims[i][j] for i, j in enumerate(t)]
+        out.append(product_cell(*v[:np], static=v[np], lkdl=v[np + 1], gdl=v[np + 2], sdl=v[np + 3]))
+    return out, len(need)
 
 
 # =================================================================================== wraps
@@ -848,14 +981,14 @@ def run(ctx):
     cells = corner_cells()
     ncorner = len(cells)
     if thorough:
-        cells += full_product()
+        cells += full_product(rng)
         ctx.extra['lookup_product_exhaustive'] = True
     else:
-        pw, uncovered = pairwise_sample(rng, 55)
+        pw, uncovered = pairwise_sample(rng, 60)
         cells += pw
         ctx.extra['lookup_product_exhaustive'] = False
         ctx.extra['lookup_product_pairwise_uncovered_pairs'] = uncovered
-    cells += [random_cell(rng) for _ in range(400 if thorough else 50)]
+    cells += [random_cell(rng) for _ in range(250 if thorough else 50)]
     scratch = ctx.mkscratch()
     # every fourth project lives under a path with a blank and a non-ASCII letter
     results = pmap(run_cell, [(c, os.path.join(scratch, ('c %d \u00fc' if i % 4 == 3 else 'c%d') % i)) for i, c in enumerate(cells)])
@@ -950,7 +1083,7 @@ def run(ctx):
     mark('cli_wrap')
 
     # ------------------------------------------------------------------ wraps: Resolver in-process
-    base = wrap_corner() + [wrap_random(rng) for _ in range(1500 if thorough else 150)]
+    base = wrap_corner() + [wrap_random(rng) for _ in range(1200 if thorough else 150)]
     for sc in base:                          # a quarter of the scenarios live under a path with a blank, a '%' and a non-ASCII letter
         if rng.random() < 0.25:
             sc['hostile_path'] = True
